@@ -445,6 +445,8 @@ def compare_tv(mod, tv_cases, real):
         out["mismatches"].append(dict(error="symbolic build failed in concrete mode: " + repr(ex) + traceback.format_exc()[-800:]))
         return out
     theirs = real["tv"]
+    if hasattr(mod, "tv_compare_hook"):
+        mine, theirs = mod.tv_compare_hook(mine, theirs)
     for i, (a, b) in enumerate(zip(mine, theirs)):
         out["cases"] += 1
         if not _close(a, b):
